@@ -30,6 +30,9 @@ type twScript struct {
 	Gomaxprocs int      `json:"gomaxprocs"`
 	StallMs    int      `json:"stall_ms"` // free mode: the writer sleeps this long at w.recv every stall_every frames
 	StallEvery int      `json:"stall_every"`
+	Coalesce   bool     `json:"coalesce"`  // header and all frames in a single write
+	RotateMs   int      `json:"rotate_ms"` // verif hook: start a new file every rotate_ms instead of every minute
+	PauseUs    int      `json:"pause_us"`  // sender pause after each queued item
 }
 type twStep struct {
 	A string `json:"a"`
@@ -255,6 +258,7 @@ func TestVerifTW(t *testing.T) {
 			g.free = true
 		}
 		verifHook = g.hook
+		verifRotateEvery = time.Duration(sc.RotateMs) * time.Millisecond
 		done := make(chan error, 1)
 		panicked := false
 		go func() {
@@ -276,7 +280,10 @@ func TestVerifTW(t *testing.T) {
 			t.Fatal(err)
 		}
 		hdr := fmt.Sprintf("Brand: flir\nCameraSerial: 1\nFPS: 9\nFirmware: 1.2.3\nFrameSize: %d\nModel: lepton3\nResX: 16\nResY: 12\n\n", sc.FrameSize)
-		conn.Write([]byte(hdr))
+		coalesced := sc.Coalesce && sc.Mode == "free"
+		if !coalesced {
+			conn.Write([]byte(hdr))
+		}
 		// asynchronous sender: the scheduler must never block on a full socket buffer
 		var sendMu sync.Mutex
 		sendQ := [][]byte{}
@@ -299,6 +306,9 @@ func TestVerifTW(t *testing.T) {
 				p := sendQ[0]
 				sendQ = sendQ[1:]
 				sendMu.Unlock()
+				if sc.PauseUs > 0 {
+					time.Sleep(time.Duration(sc.PauseUs) * time.Microsecond)
+				}
 				for len(p) > 0 {
 					n := len(p)
 					if len(sc.Chunks) > 0 {
@@ -368,7 +378,19 @@ func TestVerifTW(t *testing.T) {
 			// the writer is parked after receiving its first frame while the reader fills everything in flight
 		}
 		// the rest of the stream runs free
-		for k := sentFull + 1; k <= sc.NFrames; k++ {
+		if coalesced {
+			// the camera header and the frames arrive in one segment (a single write)
+			all := []byte(hdr)
+			for k := 1; k <= sc.NFrames; k++ {
+				fr := twFrame(k, sc.FrameSize)
+				if k == sc.NFrames && sc.CutLast {
+					fr = fr[:sc.FrameSize/2]
+				}
+				all = append(all, fr...)
+			}
+			send(all)
+		}
+		for k := sentFull + 1; k <= sc.NFrames && !coalesced; k++ {
 			fr := twFrame(k, sc.FrameSize)
 			if k == sentHalf1 {
 				fr = fr[half:]
@@ -436,6 +458,7 @@ func TestVerifTW(t *testing.T) {
 			"nframes": sc.NFrames, "complete": complete, "files": files, "exited": exited, "panicked": panicked,
 			"races": 0, "infeasible": infeasible, "herr": fmt.Sprint(herr), "backlog": backlog})
 		verifHook = nil
+		verifRotateEvery = 0
 		watch.Stop()
 		if !exited {
 			// goroutines of this connection are still parked: later scripts would not be independent
